@@ -50,6 +50,12 @@ class SWWorld(object):
               max_entries=cfg.get("max_entries", 0x7fffffff),
               expire_period=cfg.get("expire_period", 2))
     self.switch = ExpiringSwitch(**kw)
+    for no in cfg.get("ports_admin_down", ()):
+      # a port that is administratively down from the start (its link state
+      # says nothing of the kind)
+      if no in self.switch.ports:
+        self.switch.ports[no].config |= 1        # OFPPC_PORT_DOWN
+        sim.probes["port_admin_down_at_boot"] += 1
     self.switch.addListener(DpPacketOut, self._on_dp_out)
     self.loop = IOW.RecocoIOLoop()
     self.loop.start()
